@@ -1262,6 +1262,7 @@ func runC19(prop string, res *Result, pool *DrvPool, r *Rng) {
 	runC19bc(res, pool, r.Fork())
 	runC19c(prop, res, pool, r.Fork())
 	runC19Rebuild(res, r.Fork())
+	runC19d(prop, res, pool, r.Fork())
 }
 
 
